@@ -174,7 +174,7 @@ Value& MemberCONCATExpression::value(Context& ctx) const
       case Type::INTEGER:
         if (a0_type == Type::NUMERIC)
         {
-          rv->push_back(Value(Integer(*a0.numeric())));
+          rv->push_back(Value(Value::integerOf(*a0.numeric())));
           return val;
         }
         else if (a0.type() == Type::NO_TYPE)
